@@ -52,6 +52,16 @@ def monitor_user(case, r):
             needed |= nx.ancestors(G, o) | {o}
     sub = G.subgraph(needed)
     cyclic = not nx.is_directed_acyclic_graph(sub)
+    if cyclic:
+        # "the nodes a run has to examine": without a registry that is the plan pruned to the output's ancestors AFTER the
+        # removal of trivial literals (a literal that is only depended upon is replaced by pred x succ edges), so a cycle that
+        # runs through such literals only disappears before anything is examined.  Recompute on that graph, obtained with the
+        # library's own prune_plan on a scratch copy of the plan.
+        from uberjob._transformations.pruning import prune_plan
+        plan2, N2, _ = plans.build(spec, plans.Rec(), {})
+        outn = plan2._gather(None, [N2[i] for i in out])
+        prune_plan(plan2, required_nodes=[], output_node=outn, inplace=True)
+        cyclic = not nx.is_directed_acyclic_graph(nx.DiGraph(plan2.graph))
     ev = r.rec.events
     if r.deadlock or r.hang:
         v.append(("C07", "run did not terminate (%s)" % ("deadlock" if r.deadlock else "step limit")))
